@@ -67,6 +67,12 @@ def make_case(seed, k, mode):
                 else:
                     lines_.append(loader_x.render_rule(rng, r["name"], ["alt", 0] + d[2:] if d[0] == "alt" else d, False))
             g["via_text"] = "\r\n".join(lines_) + "\r\n"
+    if not flags and not any(r.get("alias_of") for r in g["rules"]) and rng.random() < 0.4:
+        # plain grammars too are sometimes compiled from ABNF text by the library's own reader (order of alternatives, nesting of
+        # groups, bounds as written)
+        import loader_x
+        if all(loader_x.text_ok(r["def"]) and loader_x.simplify_for_text(r["def"]) == r["def"] for r in g["rules"]):
+            g["via_text"] = "\r\n".join(loader_x.render_rule(rng, r["name"], r["def"], False) for r in g["rules"]) + "\r\n"
     inputs = gen.gen_inputs(rng, g)
     return {"seed": seed, "index": k, "mode": mode, "grammar": g, "inputs": inputs}
 
@@ -77,11 +83,22 @@ def fixed_cases():
     L = lambda cs, t: ["lit", cs, t]  # noqa: E731
     out = []
 
-    def case(name, rules, inputs, alpha="ab"):
+    def case(name, rules, inputs, alpha="ab", via_text=None):
         out.append({"seed": 0, "index": name, "mode": "fixed",
-                    "grammar": {"rules": [{"name": n, "def": d, "excl": x} for n, d, x in rules],
-                                "alpha": list(alpha)},
+                    "grammar": dict({"rules": [{"name": n, "def": d, "excl": x} for n, d, x in rules],
+                                     "alpha": list(alpha)}, **({"via_text": via_text} if via_text else {})),
                     "inputs": inputs})
+
+    # an alternation of more than 8 alternatives, some spelled twice, ambiguous (same end, different trees), COMPILED FROM TEXT: the
+    # alternatives are tried in the order written, duplicates included, whatever the hash seed
+    wide = [L(0, "a"), L(0, "ab"), L(0, "b"), L(0, "a"), L(0, "abc"), ["cat", [L(0, "a"), L(0, "b")]], L(0, "ab"), L(0, "c"), L(1, "A"), L(0, "a"),
+            ["cat", [L(0, "ab"), L(0, "c")]]]
+    case("wide-alternation-with-duplicates", [("w", ["alt", 0, wide], None), ("v", ["rep", 1, 3, ["ref", "w"]], None)],
+         ["a", "ab", "abc", "A", "abab", "abcab", "c", "d", ""], alpha="abc",
+         via_text='w = "a" / "ab" / "b" / "a" / "abc" / "a" "b" / "ab" / "c" / %s"A" / "a" / "ab" "c"\r\nv = 1*3w\r\n')
+    # characters whose case mappings have another length, in front of case-insensitive literals tried at later offsets
+    case("length-changing-case-maps", [("h", L(0, "f"), None), ("hh", L(0, "ab"), None), ("k", ["cat", [["range", 0x80, 0x10FFFF], L(0, "Ab")]], None)],
+         ["\u0130f", "\u0130ab", "\u00dfF", "\u0149AB", "\u0130\u0130aB", "\ufb01f", "\u1e9eab", "\u0130"], alpha="abf")
 
     case("empty-literal-at-end", [("x", ["cat", [L(0, "a"), ["ref", "e"]]], None), ("e", L(0, ""), None)],
          ["a", "", "aa", "b"])
@@ -110,6 +127,13 @@ def fixed_cases():
                         ("f", ["cat", [["rep", 0, None, L(0, "a")], ["opt", L(0, "b")]]], None),
                         ("g", ["cat", [["rep", 0, None, L(0, "a")], ["rep", 0, 1, L(0, "a")], ["opt", L(0, "b")]]], None)],
          ["a" * 254, "a" * 256, "a" * 257, "a" * 258, "a" * 259, "a" * 300, "a" * 301, "a" * 258 + "b", "a" * 257 + "b"])
+    # a huge explicit upper bound over an element that can match the empty string: the loop must stop when a round adds no new
+    # end, not run to the bound (termination within a work bound, whatever the bound)
+    case("huge-bound-nullable", [("a", ["rep", 0, 1000000, ["opt", L(0, "a")]], None),
+                                 ("b", ["rep", 2, 1000000, ["rep", 0, None, L(0, "a")]], None),
+                                 ("c", ["rep", 1, 1000000, ["alt", 0, [L(0, ""), L(0, "a")]]], None),
+                                 ("d", ["cat", [["rep", 0, 999999, ["ref", "e"]], L(0, "b")]], None), ("e", ["rep", 0, 3, L(0, "a")], None)],
+         ["", "aaa", "b", "aab"])
     # deep backtracking: the longest overall match needs the first element to give back more than 128 / 256 positions, so every
     # one of its hundreds of candidate ends must survive until the later elements have been tried
     case("deep-backtrack", [("x", ["cat", [["rep", 0, None, L(0, "a")], ["rep", 140, 140, L(0, "a")]]], None),
@@ -228,9 +252,16 @@ def run_cases(cases, want_parse=True):
                 offsets = range(len(s) + 1) if len(s) <= 40 else sorted({0, 1, 2, len(s) // 2, len(s) - 1, len(s)})
                 for i in offsets:
                     try:
-                        with pyimpl.time_limit(0.5 if len(s) <= 40 else 5.0):
+                        with pyimpl.time_limit((0.5 if len(s) <= 40 else 5.0) if c.get("mode") != "fixed" else 30.0):
                             r_impl = pyimpl.run_lparse(objs[n], s_live, i)
                     except pyimpl.SlowCase:
+                        if c.get("mode") == "fixed":
+                            # the hand-picked cases are known to take a fraction of a second: 30 s on one call is a loop that
+                            # does not stop when it should
+                            lines.append(" ".join(["LPARSE", "0", str(rid), str(i)] + st))
+                            meta.append((c, "lparse", n, s, i, "HANG"))
+                            slow = True
+                            break
                         slow = True   # exponential backtracking: a runtime effect, not semantics; skip ...
                         # ... unless it does not even terminate on a TRIVIAL input (exponential blow-up needs a long
                         # input; a loop that never reaches its fixpoint hangs on "" too): that is a totality violation
@@ -367,7 +398,7 @@ def main():
         fixed = [] if a.fixed == "none" else fixed_cases()
         if a.fixed == "only":
             # three jobs share the hand-picked cases: the two long-input cases get a job each (--seed 0, 1), the rest --seed 2
-            part = {"big-bounds": 0, "deep-backtrack": 1}
+            part = {"big-bounds": 0, "deep-backtrack": 1, "huge-bound-nullable": 1}
             fixed = [c for c in fixed if part.get(c["index"], 2) == a.seed % 3]
         cases = fixed + ([] if a.fixed == "only" else [make_case(a.seed, k, a.mode) for k in range(a.n)])
     records, stats = run_cases(cases)
